@@ -284,13 +284,15 @@ def edit_for(t, rng, kind=None):
         return [Sym("unroot")]
     return NONE
 
-def emit_pre(out, kind, t1, t2s, pre1, pres, rng, ops=("compare", "weighted"), flags=None):
+def emit_pre(out, kind, t1, t2s, pre1, pres, rng, ops=("compare", "weighted"), flags=None, prep=None):
     """pre-used trees: indexed, edited through the public API, NOT re-indexed, then compared"""
     for op in ops:
         fl = flags if flags is not None else [(False, False), (True, False)]
         for tips, ident in fl:
             if op == "common":
                 c = {"op": Sym(op), "t1": T(t1), "t2": T(t2s[0]), "tips": tips, "ident": False, "pre1": pre1, "pres": [pres[0]]}
+                if prep:
+                    c["prep"] = Sym(prep)
             else:
                 c = {"op": Sym(op), "t1": T(t1), "t2s": [T(b) for b in t2s], "tips": tips, "ident": ident,
                      "pre1": pre1, "pres": pres}
@@ -374,6 +376,18 @@ def gen(rng, tier):
         seq3 = [Sym("seq"), [Sym("clone")], edit_for(t, rng, "rename"), [Sym("collapse"), Fraction(rng.choice([1, 8, 32]), 64)]]
         emit_pre(out, "pre-seq", t, [big, clone(u), clone(t), bigu], edit_for(t, rng, "rotate"),
                  [seq1, seq2, seq3, [Sym("seq"), [Sym("removetips")] + extra, [Sym("unroot")]]], rng, flags=flp)
+        # CommonEdges after the documented three-call preparation (UpdateTipIndex; ClearBitSets; UpdateBitSet) instead of
+        # ReinitIndexes, on fresh trees and on trees that were fully indexed (and edited) earlier
+        emit_pre(out, "prep-three", t, [shuffle_children(reroot_at(t, rng), rng)], NONE, [NONE], rng, ops=("common",), flags=flp, prep="three")
+        emit_pre(out, "prep-three-used", t, [clone(t)], rng.choice([NONE, edit_for(t, rng, "reroot")]),
+                 [rng.choice([[Sym("reinit")], edit_for(t, rng, "reroot"), edit_for(t, rng, "rename")])], rng, ops=("common",), flags=flp, prep="three")
+        emit_pre(out, "prep-three-used", u, [c1], [Sym("seq"), [Sym("reinit")], edit_for(u, rng, "rotate")], [NONE], rng, ops=("common",), flags=flp, prep="three")
+        # the compared tree is a Clone() of the already indexed reference (or the reverse), then its names are permuted
+        perm = rng.choice([edit_for(t, rng, "rename"), edit_for(t, rng, "setname"), [Sym("shuffle"), rng.randrange(1, 2 ** 31)],
+                           [Sym("seq"), edit_for(t, rng, "rename"), edit_for(t, rng, "rename")]])
+        emit_pre(out, "clone-of-ref", t, [clone(t)], NONE, [[Sym("fromref"), perm]], rng, ops=("compare", "weighted", "common"), flags=flp)
+        emit_pre(out, "clone-of-ref", t, [clone(t), c1, clone(t)], NONE, [[Sym("fromref"), perm], NONE, [Sym("fromref")]], rng, flags=flp)
+        emit_pre(out, "clone-of-cmp", clone(u), [u, c1], [Sym("fromcmp"), 0, perm], [NONE, NONE], rng, flags=flp)
         rt2 = root_on_branch(t, rng, g)
         emit_pre(out, "pre-unroot", t, [rt2], NONE, [[Sym("unroot")]], rng, ops=("compare", "weighted", "common"), flags=flp)
         # star tree against anything
@@ -401,6 +415,34 @@ def gen(rng, tier):
             rt = g.tree(ntips=n, rooted=True, maxdeg=4, lenmode="all", supmode="mixed", up_random=True)
             emit(out, "rooted", rt, t, rng, flags=[(False, False), (True, False)])
             emit(out, "rooted", rt, clone(rt), rng, ops=("compare", "weighted"), both_orders=False, flags=[(False, False)])
+    # taxon counts at machine-word boundaries of the bitsets: the same tree written from another node with reversed
+    # children, a contraction, an independent tree
+    def caterpillar(n):
+        names = ["w%03d" % i for i in range(n)]
+        rng.shuffle(names)
+        sh = [names[0], names[1]]
+        for x in names[2:n - 2]:
+            sh = [sh, x]
+        return g.decorate([sh, names[n - 2], names[n - 1]], lenmode="all", supmode="none", up_random=True)
+    sizes = [31, 32, 33, 63, 64, 65, 127, 128, 129]
+    reps = {"quick": 1, "thorough": 6, "search": 1}[tier]
+    ws = []
+    for n in sizes:
+        for _ in range(reps):
+            cat = caterpillar(n)
+            far = reroot_at(cat, rng)
+            for nd in preorder(far):
+                nd["slots"].reverse()
+            big = n > 100 and tier != "thorough"
+            emit(ws, "wordsize-%d" % n, cat, far, rng, ops=("common",) if big else ("compare", "common"), flags=[(False, False)], both_orders=False)
+            if not big:
+                rnd = unrooted(g, rng, n, maxdeg=3)
+                emit(ws, "wordsize-%d" % n, rnd, shuffle_children(reroot_at(rnd, rng), rng), rng, ops=("compare", "weighted"), flags=[(True, False)], both_orders=False)
+                emit(ws, "wordsize-%d" % n, rnd, contraction(rnd, rng, k=3), rng, ops=("compare",), flags=[(False, True)])
+    # the big trees are slow to judge: spread them over the list so that they land in different work chunks
+    step = max(1, len(out) // (len(ws) + 1))
+    for i, c in enumerate(ws):
+        out.insert(min(len(out), (i + 1) * step), c)
     # several workers with rejected trees at random positions (the per-tree error must stay per tree)
     parallel_cases(out, rng, g, {"quick": 6, "thorough": 60, "search": 40}[tier], {"quick": 120, "thorough": 300, "search": 400}[tier])
     # minimal witnesses of the design notes, always present
